@@ -592,12 +592,12 @@ def _is_xml_char(c: str) -> bool:
     return o in (0x9, 0xA, 0xD) or 0x20 <= o <= 0xD7FF or 0xE000 <= o <= 0xFFFD or 0x10000 <= o <= 0x10FFFF
 
 
-_ESC_ENDPOINT_RE = re.compile(r"\\.-|-\\")
+_ESC_ENDPOINT_RE = re.compile(r"\\.-|-\\|\\\\[sSiIcCdDwWpP]")
 
 
 def xmlschema_blind(t: str) -> bool:
     """
-    xmlschema 4.x mis-reads a dash next to an escape inside a class (``[-\\t]`` does not accept the tab) and a range whose start or end is an escape (``[\\t-z]`` is read as the three members
+    xmlschema 4.x mis-reads a dash next to an escape inside a class (``[-\\t]`` does not accept the tab) an escaped backslash followed by a letter of a class escape (``[^\\\\c]``) and a range whose start or end is an escape (``[\\t-z]`` is read as the three members
     tab, dash, z; ``[\\n-\\[]`` is refused) although ``seRange ::= charOrEsc '-' charOrEsc`` allows it.  For such patterns
     the judge is Python's ``re`` on the pattern converted by ``xsd_to_python`` (an independent, direct conversion).
     """
